@@ -16,11 +16,23 @@ Extracted
       if isinstance(x, int | float): ... elif not isinstance(x, C): raise -> else-reject
   Every `if` of a constructor/setter that contains an ordering or length comparison must be one of these;
   `raise` under pure presence logic (is None / is not None) is not a range guard and is skipped.
+  A parameter that is re-bound before / between its checks (`row = int(row)`) is refused (fail closed).
+* for the same parameters, WHAT IS STORED of an accepted value (`self._<field> = <expr>`), constructor and setter:
+      self._f = f | self._f: T = f | a local holding None / the re-packed elements of f     -> StId
+      self._f = float(f) | float(f) if f is not None else None | float(f) if isinstance(f, int | float) else f
+                                                                                             -> StFloatIf <pre>
+      self._f = int(f) (also inside a conditional expression)                                -> StInt
+      no such assignment                                                                     -> StNone
+  any other expression that mentions the parameter fails closed; an assignment that does not mention it (a value
+  computed from the other parameters when this one is not given) is skipped.
 * the geometry subclasses (CCD/CMOS/MKID/APD) add nothing to Geometry (docstring-only bodies);
-* `_build_configuration` and `Configuration.__post_init__`: the key lists, the count expression and the
-  comparison `if count != 1: raise`; the if/elif dispatch uses the same key for the test, the builder's
-  argument and the keyword; to_ccd/to_cmos/to_mkid_array/to_apd feed each section to the builder of the
-  same name; the geometry/characteristics builders pass the section unchanged (`Cls(**dct)`).
+* `_build_configuration` and `Configuration.__post_init__`: the key lists, the count expression — HOW a section is
+  counted: `key in dct` (presence) / `dct.get(key) is not None` / `bool(dct.get(key))`, for the built objects
+  `el is not None`; as `sum(<test> for key in keys)`, `sum(1 for key in keys if <test>)` or
+  `len([key for key in keys if <test>])` — and the comparison `if count != 1: raise`; a count computed in any other
+  way (a helper function ...) fails closed; the if/elif dispatch tests `"k" in dct` and uses the same key for the
+  test, the builder's argument and the keyword; to_ccd/to_cmos/to_mkid_array/to_apd feed each section to the builder
+  of the same name; the geometry/characteristics builders pass the section unchanged (`Cls(**dct)`).
 """
 from __future__ import annotations
 
@@ -135,6 +147,7 @@ def len_clause(node, name):
 
 
 PROJECT_CLASSES: set[str] = set()    # classes defined in the module being translated (set by extract_class)
+STORES: dict[str, list] = {}         # class name -> [(parameter, constructor storeop, setter storeop)] (set by extract_class)
 
 
 def is_not_project_instance(node, name) -> bool:
@@ -243,6 +256,10 @@ def walk_guards(stmts, names, acc: dict, ctx: dict):
             handle_if(st, names, acc, ctx)
         elif isinstance(st, (ast.Assign, ast.AnnAssign, ast.AugAssign, ast.Expr, ast.Pass, ast.Return,
                              ast.Import, ast.ImportFrom)):
+            for n in ast.walk(st):
+                if isinstance(n, (ast.Name,)) and isinstance(n.ctx, ast.Store) and n.id in names:
+                    fail(st, f"parameter {n.id!r} is re-bound: its checks and its store would not speak about the "
+                             f"value that was given")
             continue
         elif isinstance(st, ast.Raise):
             if not ctx.get("__presence__"):
@@ -346,6 +363,117 @@ def guard_lit(g: GuardAcc) -> str:
     return f"Guard {pre} [{cls}] {'true' if g.else_reject else 'false'}"
 
 
+# ------------------------------------------------------------------------------------------ what is stored
+
+
+def _is_call_of(node, fname, pname) -> bool:
+    return (isinstance(node, ast.Call) and isinstance(node.func, ast.Name) and node.func.id == fname
+            and len(node.args) == 1 and not node.keywords and isinstance(node.args[0], ast.Name)
+            and node.args[0].id == pname)
+
+
+def _is_none(node) -> bool:
+    return isinstance(node, ast.Constant) and node.value is None
+
+
+def _self_attr(node):
+    """self.<attr> -> attr"""
+    if isinstance(node, ast.Attribute) and isinstance(node.value, ast.Name) and node.value.id == "self":
+        return node.attr
+    return None
+
+
+def _local_repack_ok(fn, var, pname) -> bool:
+    """every assignment to the local `var` is None, the parameter itself, tuple(p)/list(p), or the tuple/list of the names
+    that were unpacked from the parameter (`a, b = p`), in that order"""
+    unpack = [e.id for e in n_unpack_order(fn, pname)]
+    found = False
+    for n in ast.walk(fn):
+        if not isinstance(n, (ast.Assign, ast.AnnAssign)):
+            continue
+        nm, val = assigned(n)
+        if nm != var:
+            continue
+        found = True
+        if (_is_none(val) or (isinstance(val, ast.Name) and val.id == pname)
+                or _is_call_of(val, "tuple", pname) or _is_call_of(val, "list", pname)):
+            continue
+        if (isinstance(val, (ast.Tuple, ast.List)) and unpack and all(isinstance(e, ast.Name) for e in val.elts)
+                and [e.id for e in val.elts] == unpack):
+            continue
+        return False
+    return found
+
+
+def n_unpack_order(fn, pname):
+    """the names of `a, b = p`, in order (first such statement)"""
+    for n in ast.walk(fn):
+        if (isinstance(n, ast.Assign) and len(n.targets) == 1 and isinstance(n.targets[0], (ast.Tuple, ast.List))
+                and isinstance(n.value, ast.Name) and n.value.id == pname
+                and all(isinstance(e, ast.Name) for e in n.targets[0].elts)):
+            return list(n.targets[0].elts)
+    return []
+
+
+def store_kind(expr, pname, fn):
+    """Gallina storeop of one assigned expression that mentions the parameter; None = it does not mention it"""
+    if isinstance(expr, ast.Name) and expr.id != pname and _local_repack_ok(fn, expr.id, pname):
+        return "StId"
+    if not mentions(expr, pname):
+        return None
+    if isinstance(expr, ast.Name):
+        return "StId"
+    if _is_call_of(expr, "float", pname):
+        return "(StFloatIf PAlways)"
+    if _is_call_of(expr, "int", pname):
+        return "StInt"
+    if _is_call_of(expr, "tuple", pname) or _is_call_of(expr, "list", pname):
+        return "StId"
+    if isinstance(expr, ast.IfExp):
+        pk = presence_kind(expr.test, pname)
+        if pk is None:
+            fail(expr, f"stored value of {pname!r}: unsupported condition")
+        b, o = expr.body, expr.orelse
+        o_same = isinstance(o, ast.Name) and o.id == pname
+        o_none = _is_none(o) and pk == "PNotNone"       # `x if x else None` would turn 0 into None
+        if not (o_same or o_none):
+            fail(expr, f"stored value of {pname!r}: unsupported else-value")
+        if _is_call_of(b, "int", pname):
+            return "StInt"
+        if _is_call_of(b, "float", pname):
+            return f"(StFloatIf {pk})"
+        if isinstance(b, ast.Name) and b.id == pname:
+            return "StId"
+        fail(expr, f"stored value of {pname!r}: unsupported conversion")
+    fail(expr, f"stored value of {pname!r}: unsupported expression `{ast.unparse(expr)[:60]}`")
+
+
+def extract_store(fn, pname, field) -> str:
+    """what `fn` keeps of parameter `pname` in self._<field>"""
+    kinds = []
+    for n in ast.walk(fn):
+        if isinstance(n, ast.Assign):
+            targets, val = n.targets, n.value
+        elif isinstance(n, ast.AnnAssign) and n.value is not None:
+            targets, val = [n.target], n.value
+        elif isinstance(n, ast.AugAssign):
+            if _self_attr(n.target) == "_" + field:
+                fail(n, f"self._{field} is updated in place")
+            continue
+        else:
+            continue
+        for t in targets:
+            if _self_attr(t) == "_" + field:
+                k = store_kind(val, pname, fn)
+                if k is not None:
+                    kinds.append(k)
+    if not kinds:
+        return "StNone"
+    if len(set(kinds)) != 1:
+        fail(fn, f"self._{field} is stored in different ways: {sorted(set(kinds))}")
+    return kinds[0]
+
+
 def class_node(tree, name) -> ast.ClassDef:
     c = [n for n in tree.body if isinstance(n, ast.ClassDef) and n.name == name]
     if len(c) != 1:
@@ -365,6 +493,7 @@ def extract_class(repo: Path, rel: str, cname: str):
     acc = {p: GuardAcc() for p in params}
     walk_guards(body_no_doc(init), params, acc, {})
     setters = {}
+    setter_fns = {}
     for fn in cn.body:
         if not isinstance(fn, ast.FunctionDef):
             continue
@@ -378,10 +507,14 @@ def extract_class(repo: Path, rel: str, cname: str):
             if fn.name in setters:
                 fail(fn, "two setters")
             setters[fn.name] = a[v]
+            setter_fns[fn.name] = fn
     rows = []
     for p in params:
         rows.append((p, guard_lit(acc[p]), guard_lit(setters[p]) if p in setters else "read_only"))
     extra = sorted(set(setters) - set(params))
+    STORES[cname] = [(p, extract_store(init, p, p),
+                      extract_store(setter_fns[p], setter_fns[p].args.args[1].arg, p) if p in setter_fns else "StNone")
+                     for p in params]
     return rows, extra
 
 
@@ -420,8 +553,76 @@ def assigned(st):
 CNT = {ast.NotEq: "CNe", ast.Lt: "CLt", ast.Gt: "CGt", ast.Eq: "CEq"}
 
 
+def _is_dct_get(node, var) -> bool:
+    """dct.get(var)"""
+    return (isinstance(node, ast.Call) and isinstance(node.func, ast.Attribute) and node.func.attr == "get"
+            and isinstance(node.func.value, ast.Name) and node.func.value.id == "dct" and len(node.args) == 1
+            and not node.keywords and isinstance(node.args[0], ast.Name) and node.args[0].id == var)
+
+
+def _is_not_none(node, inner) -> bool:
+    return (isinstance(node, ast.Compare) and len(node.ops) == 1 and isinstance(node.ops[0], ast.IsNot)
+            and inner(node.left) and isinstance(node.comparators[0], ast.Constant) and node.comparators[0].value is None)
+
+
+def count_method(test, var: str, mode: str):
+    """HOW one section is counted -> CMPresent | CMNotNone | CMTruthy | None (unknown)
+    mode 'keys' : var in dct | dct.get(var) is not None | dct.get(var) | bool(dct.get(var))
+    mode 'attrs': var is not None                                   (var ranges over the built objects)"""
+    is_var = lambda n: isinstance(n, ast.Name) and n.id == var
+    if mode == "keys":
+        if (isinstance(test, ast.Compare) and len(test.ops) == 1 and isinstance(test.ops[0], ast.In)
+                and is_var(test.left) and isinstance(test.comparators[0], ast.Name) and test.comparators[0].id == "dct"):
+            return "CMPresent"
+        if _is_not_none(test, lambda n: _is_dct_get(n, var)):
+            return "CMNotNone"
+        if _is_dct_get(test, var):
+            return "CMTruthy"
+        if (isinstance(test, ast.Call) and isinstance(test.func, ast.Name) and test.func.id == "bool"
+                and len(test.args) == 1 and not test.keywords and _is_dct_get(test.args[0], var)):
+            return "CMTruthy"
+        return None
+    if _is_not_none(test, is_var):
+        return "CMNotNone"
+    return None
+
+
+def count_expr(val, lists, mode: str):
+    """sum(<test> for v in L) | sum([<test> for v in L]) | sum(1 for v in L if <test>) | len([v for v in L if <test>])
+    -> (keys of L, method) ; None if `val` is not a counting expression over a known list; fails on an unknown test"""
+    if not (isinstance(val, ast.Call) and isinstance(val.func, ast.Name) and val.func.id in ("sum", "len")
+            and len(val.args) == 1 and not val.keywords
+            and isinstance(val.args[0], (ast.GeneratorExp, ast.ListComp))):
+        return None
+    g = val.args[0]
+    if len(g.generators) != 1 or g.generators[0].is_async or not isinstance(g.generators[0].target, ast.Name):
+        fail(val, "count expression")
+    gen = g.generators[0]
+    var = gen.target.id
+    if isinstance(gen.iter, ast.Name) and gen.iter.id in lists:
+        keys = lists[gen.iter.id]
+    elif str_list(gen.iter) is not None:
+        keys = str_list(gen.iter)
+    else:
+        fail(val, "count expression over an unknown list")
+    if val.func.id == "sum" and not gen.ifs:
+        test = g.elt
+    elif len(gen.ifs) == 1 and (
+            (val.func.id == "sum" and isinstance(g.elt, ast.Constant) and g.elt.value == 1 and g.elt.value is not True)
+            or (val.func.id == "len" and isinstance(g, ast.ListComp))):
+        test = gen.ifs[0]
+    else:
+        fail(val, "count expression")
+    how = count_method(test, var, mode)
+    if how is None:
+        fail(val, f"sections are counted in an unsupported way: `{ast.unparse(test)[:80]}`")
+    return keys, how
+
+
 def count_checks(fn: ast.FunctionDef, site: str, mode: str):
-    """mode 'keys': sum(key in dct for key in <keys>) ; mode 'attrs': sum(el is not None for el in <list of self.x>)"""
+    """the exactly-one checks of `fn`: [(site, keys, how, op, n)].
+    mode 'keys': the sections of the document `dct` ; mode 'attrs': the built objects (a list of self.x).
+    Every `if <name> <cmp> <int>: ... raise` must compare a count that was understood (fail closed otherwise)."""
     lists, counts, checks = {}, {}, []
     for st in body_no_doc(fn):
         nm, val = assigned(st)
@@ -435,38 +636,33 @@ def count_checks(fn: ast.FunctionDef, site: str, mode: str):
                     for e in val.elts)):
                 lists[nm] = [e.attr for e in val.elts]
                 continue
-            if (isinstance(val, ast.Call) and isinstance(val.func, ast.Name) and val.func.id == "sum"
-                    and len(val.args) == 1 and isinstance(val.args[0], ast.GeneratorExp)):
-                g = val.args[0]
-                if len(g.generators) != 1 or g.generators[0].ifs or not isinstance(g.generators[0].iter, ast.Name):
-                    fail(st, "count expression")
-                var = g.generators[0].target
-                src = g.generators[0].iter.id
-                e = g.elt
-                ok = False
-                if mode == "keys":
-                    ok = (isinstance(e, ast.Compare) and len(e.ops) == 1 and isinstance(e.ops[0], ast.In)
-                          and isinstance(e.left, ast.Name) and isinstance(var, ast.Name) and e.left.id == var.id
-                          and isinstance(e.comparators[0], ast.Name) and e.comparators[0].id == "dct")
-                else:
-                    ok = (isinstance(e, ast.Compare) and len(e.ops) == 1 and isinstance(e.ops[0], ast.IsNot)
-                          and isinstance(e.left, ast.Name) and isinstance(var, ast.Name) and e.left.id == var.id
-                          and isinstance(e.comparators[0], ast.Constant) and e.comparators[0].value is None)
-                if not ok or src not in lists:
-                    fail(st, "count expression")
-                counts[nm] = lists[src]
+            ce = count_expr(val, lists, mode)
+            if ce is not None:
+                counts[nm] = ce
                 continue
+            counts.pop(nm, None)       # re-bound to something else: no longer a known count
         if isinstance(st, ast.If):
             t = st.test
-            if (isinstance(t, ast.Compare) and len(t.ops) == 1 and isinstance(t.left, ast.Name)
-                    and t.left.id in counts):
-                op = CNT.get(type(t.ops[0]))
-                c = t.comparators[0]
-                if op is None or not (isinstance(c, ast.Constant) and isinstance(c.value, int)):
-                    fail(st, "count comparison")
-                if not st.body or not isinstance(st.body[-1], ast.Raise) or st.orelse:
-                    fail(st, "count check must end in raise")
-                checks.append((site, counts[t.left.id], op, c.value))
+            if not (isinstance(t, ast.Compare) and len(t.ops) == 1):
+                continue
+            c = t.comparators[0]
+            is_int = isinstance(c, ast.Constant) and isinstance(c.value, int) and not isinstance(c.value, bool)
+            ends_in_raise = bool(st.body) and isinstance(st.body[-1], ast.Raise)
+            if isinstance(t.left, ast.Name) and t.left.id in counts:
+                keys, how = counts[t.left.id]
+            elif count_expr(t.left, lists, mode) is not None:
+                keys, how = count_expr(t.left, lists, mode)
+            elif is_int and ends_in_raise and isinstance(t.left, (ast.Name, ast.Call)):
+                fail(st, f"`{ast.unparse(t)[:60]}` decides a refusal but the count is computed in an unsupported way "
+                         f"(a helper function?): how empty sections are counted is unknown")
+            else:
+                continue
+            op = CNT.get(type(t.ops[0]))
+            if op is None or not is_int:
+                fail(st, "count comparison")
+            if not ends_in_raise or st.orelse:
+                fail(st, "count check must end in raise")
+            checks.append((site, keys, how, op, c.value))
     return checks, counts
 
 
@@ -567,7 +763,7 @@ def extract_configuration(repo: Path):
             ok = stars == ["detector", "running_mode"] and named == {"pipeline": "pipeline"} and not n.args
     if not ok:
         fail(bc, "Configuration(pipeline=pipeline, **running_mode, **detector) not found")
-    return checks1 + checks2, [k for k, _ in modes], [k for k, _ in dets]
+    return checks1, checks2, [k for k, _ in modes], [k for k, _ in dets]
 
 
 
@@ -756,15 +952,22 @@ def translate(repo: Path) -> str:
             notes.append(f"{cname}: setters without constructor parameter: {', '.join(extra)}")
     for rel, cname in GEOMETRY_SUBCLASSES:
         check_plain_subclass(repo, rel, cname)
-    checks, modes, dets = extract_configuration(repo)
-    crow = []
-    for site, keys, op, n in checks:
-        crow.append(f"  PCheck {gstr(site)} [{'; '.join(gstr(k) for k in keys)}] {op} {n}")
+    srows = []
+    for rel, cname, ccls in CLASSES:
+        for p, sc, ss in STORES[cname]:
+            srows.append(f"  (({ccls}, {gstr(p)}), ({sc}, {ss}))")
+    pre, post, modes, dets = extract_configuration(repo)
+
+    def crows(checks):
+        return [f"  PCheck {gstr(site)} [{'; '.join(gstr(k) for k in keys)}] {how} {op} {n}"
+                for site, keys, how, op, n in checks]
     out = HEADER + PRELUDE
     for n in notes:
         out += f"(* {n} *)\n"
     out += "Definition src_guards : guard_table := [\n" + ";\n".join(rows) + "\n].\n"
-    out += "Definition src_checks : list presence_check := [\n" + ";\n".join(crow) + "\n].\n"
+    out += "Definition src_stores : store_table := [\n" + ";\n".join(srows) + "\n].\n"
+    out += "Definition src_checks_doc : list presence_check := [\n" + ";\n".join(crows(pre)) + "\n].\n"
+    out += "Definition src_checks_built : list presence_check := [\n" + ";\n".join(crows(post)) + "\n].\n"
     out += f"Definition src_mode_dispatch : list string := [{'; '.join(gstr(k) for k in modes)}].\n"
     out += f"Definition src_detector_dispatch : list string := [{'; '.join(gstr(k) for k in dets)}].\n"
     rparams, carried = extract_readout(repo)
@@ -849,11 +1052,37 @@ Definition src_guards : guard_table := [
     (Guard PAlways [] false,
      Guard PAlways [] false))
 ].
-Definition src_checks : list presence_check := [
-  PCheck "_build_configuration"%string ["exposure"%string; "observation"%string; "calibration"%string] CNe 1;
-  PCheck "_build_configuration"%string ["ccd_detector"%string; "cmos_detector"%string; "mkid_detector"%string; "apd_detector"%string] CNe 1;
-  PCheck "Configuration.__post_init__"%string ["exposure"%string; "observation"%string; "calibration"%string] CNe 1;
-  PCheck "Configuration.__post_init__"%string ["ccd_detector"%string; "cmos_detector"%string; "mkid_detector"%string; "apd_detector"%string] CNe 1
+Definition src_stores : store_table := [
+  ((CGeometry, "row"%string), (StId, StId));
+  ((CGeometry, "col"%string), (StId, StId));
+  ((CGeometry, "total_thickness"%string), (StId, StId));
+  ((CGeometry, "pixel_vert_size"%string), (StId, StId));
+  ((CGeometry, "pixel_horz_size"%string), (StId, StId));
+  ((CGeometry, "pixel_scale"%string), (StId, StId));
+  ((CCharacteristics, "quantum_efficiency"%string), (StId, StId));
+  ((CCharacteristics, "charge_to_volt_conversion"%string), (StId, StId));
+  ((CCharacteristics, "pre_amplification"%string), (StId, StId));
+  ((CCharacteristics, "full_well_capacity"%string), (StId, StId));
+  ((CCharacteristics, "adc_bit_resolution"%string), (StId, StId));
+  ((CCharacteristics, "adc_voltage_range"%string), (StId, StId));
+  ((CEnvironment, "temperature"%string), ((StFloatIf PNotNone), StId));
+  ((CEnvironment, "wavelength"%string), ((StFloatIf PIsNumber), StId));
+  ((CAPDCharacteristics, "roic_gain"%string), (StId, StNone));
+  ((CAPDCharacteristics, "quantum_efficiency"%string), (StId, StId));
+  ((CAPDCharacteristics, "full_well_capacity"%string), (StId, StId));
+  ((CAPDCharacteristics, "adc_bit_resolution"%string), (StId, StId));
+  ((CAPDCharacteristics, "adc_voltage_range"%string), (StId, StId));
+  ((CAPDCharacteristics, "avalanche_gain"%string), (StId, StId));
+  ((CAPDCharacteristics, "pixel_reset_voltage"%string), (StId, StId));
+  ((CAPDCharacteristics, "common_voltage"%string), (StId, StId))
+].
+Definition src_checks_doc : list presence_check := [
+  PCheck "_build_configuration"%string ["exposure"%string; "observation"%string; "calibration"%string] CMPresent CNe 1;
+  PCheck "_build_configuration"%string ["ccd_detector"%string; "cmos_detector"%string; "mkid_detector"%string; "apd_detector"%string] CMPresent CNe 1
+].
+Definition src_checks_built : list presence_check := [
+  PCheck "Configuration.__post_init__"%string ["exposure"%string; "observation"%string; "calibration"%string] CMNotNone CNe 1;
+  PCheck "Configuration.__post_init__"%string ["ccd_detector"%string; "cmos_detector"%string; "mkid_detector"%string; "apd_detector"%string] CMNotNone CNe 1
 ].
 Definition src_mode_dispatch : list string := ["exposure"%string; "observation"%string; "calibration"%string].
 Definition src_detector_dispatch : list string := ["ccd_detector"%string; "cmos_detector"%string; "mkid_detector"%string; "apd_detector"%string].
